@@ -1,3 +1,575 @@
+/-
+C08 — A fault in one flow never takes down the tunnel or other flows.
+
+Theorems over `Code/Wrap.lean` / `Code/Tunnel.lean`.  Faults are part of the step alphabet of the
+world model (`CbIo`: any connect errno, receive error, send error / EPIPE, failing `shutdown`;
+frames for flows already closed; identifier exhaustion in `accept`), so every theorem of C01
+already quantifies over them.  This file adds what is specific to containment:
+
+* exactly which results can end a process (`C08_callback_dies_iff`, `C08_death_causes`);
+* an error closes the flow's local socket rather than leaving it hanging
+  (`C08_connect_error_closes`, `C08_recv_error_closes`, `C08_error_means_closed`);
+* a callback of one flow touches no other flow's record and queues frames of its own channel only
+  (`C08_step_frame`), and the other flows keep C01's guarantee (`C08_neighbours_safe`).
+
+UDP and DNS flows (`onaccept_udp`, `ondns`, server `UdpProxy`/`DnsProxy`) are outside this model;
+their fault handling is decided on the real code by `harness/props/c08.py` (and C10/C11).
+-/
+import SshuttleModel.Lemmas.SockInv
 import SshuttleModel.Props.C01
+
 namespace Sshuttle.Tunnel
+open Sshuttle.Mux (Frame)
+open Sshuttle.Wrap
+
+/-! ## 1. what can end a process -/
+
+/-- The errno `try_connect` acts on: with EINVAL it asks the socket for SO_ERROR. -/
+def effErrno (en so : Nat) : Nat := if en = Generated.EINVAL then so else en
+
+/-- The connect results `try_connect` knows: success, still in progress, already connected, or
+an errno of the handled network-error set (NET_ERRS + EACCES + EPERM). -/
+def HandledConn : ConnRes → Prop
+  | .ok => True
+  | .errno en so =>
+    effErrno en so = Generated.EINPROGRESS ∨ effErrno en so = Generated.EALREADY ∨ effErrno en so = 0 ∨
+    effErrno en so = Generated.EISCONN ∨ effErrno en so ∈ Generated.NET_ERRS ++ Generated.CONNECT_EXTRA_ERRS
+
+theorem tryConnect_died_iff (s : SockW) (e : ESock) (c : ConnRes) (se : Bool) :
+    s.tryConnect e c se = .died ↔ (s.connecting = true ∧ s.shutW = false ∧ ¬ HandledConn c) := by
+  unfold SockW.tryConnect
+  by_cases hcn : s.connecting = true
+  · by_cases hw : s.shutW = true
+    · simp [hcn, hw, SockW.noread]
+    · have hw' : s.shutW = false := by simpa using hw
+      simp only [hcn, hw', Bool.and_false, Bool.false_eq_true, ↓reduceIte, Bool.not_true, true_and]
+      cases c with
+      | ok => simp [HandledConn]
+      | errno en so =>
+        simp only [HandledConn, effErrno]
+        generalize (if en = Generated.EINVAL then so else en) = x
+        by_cases c1 : x = Generated.EINPROGRESS ∨ x = Generated.EALREADY
+        · rw [if_pos c1]
+          constructor
+          · intro h; cases h
+          · intro h; exact absurd (by rcases c1 with c | c; exact Or.inl c; exact Or.inr (Or.inl c)) h
+        · rw [if_neg c1]
+          by_cases c2 : x = 0
+          · rw [if_pos c2]
+            exact ⟨fun h => (by cases h), fun h => absurd (Or.inr (Or.inr (Or.inl c2))) h⟩
+          · rw [if_neg c2]
+            by_cases c3 : x = Generated.EISCONN
+            · rw [if_pos c3]
+              exact ⟨fun h => (by cases h), fun h => absurd (Or.inr (Or.inr (Or.inr (Or.inl c3)))) h⟩
+            · rw [if_neg c3]
+              by_cases c4 : x ∈ Generated.NET_ERRS ++ Generated.CONNECT_EXTRA_ERRS
+              · rw [if_pos c4]
+                exact ⟨fun h => (by cases h), fun h => absurd (Or.inr (Or.inr (Or.inr (Or.inr c4)))) h⟩
+              · rw [if_neg c4]
+                refine ⟨fun _ => ?_, fun _ => rfl⟩
+                intro h
+                rcases h with h | h | h | h | h
+                · exact c1 (Or.inl h)
+                · exact c1 (Or.inr h)
+                · exact c2 h
+                · exact c3 h
+                · exact c4 h
+  · have hcn' : s.connecting = false := by simpa using hcn
+    simp [hcn']
+
+/-- **A callback ends the process exactly when a connect is pending and fails with an errno
+outside the handled set** (`raise  # error we've never heard of?!  barf completely.`).  No receive
+error, send error, EPIPE or failing `shutdown` ever does. -/
+theorem C08_callback_dies_iff (p : ProxyS) (m : MuxL) (e : ESock) (io : CbIo) :
+    p.callback m e io = .died ↔ (p.sw.connecting = true ∧ p.sw.shutW = false ∧ ¬ HandledConn io.conn) := by
+  rw [← tryConnect_died_iff p.sw e io.conn io.shutErr]
+  unfold ProxyS.callback
+  cases htc : p.sw.tryConnect e io.conn io.shutErr with
+  | died => simp
+  | ok s0 e0 =>
+    simp only
+    constructor
+    · intro h
+      split at h <;> cases h
+    · intro h; cases h
+
+/-- Corollary: with every connect errno in the handled set, no callback ends the process,
+whatever else the sockets do. -/
+theorem C08_callback_total (p : ProxyS) (m : MuxL) (e : ESock) (io : CbIo) (h : HandledConn io.conn) :
+    p.callback m e io ≠ .died := by
+  intro hd
+  exact ((C08_callback_dies_iff p m e io).mp hd).2.2 h
+
+/-! ## 2. an error closes the flow's socket -/
+
+/-- A failed connect (handled errno that is neither "in progress" nor "already connected") leaves
+the wrapper shut both ways, the error recorded, and the local socket shut down — and the rest
+of the callback, and everything later, keeps it so. -/
+theorem C08_connect_error_closes (p : ProxyS) (m : MuxL) (e : ESock) (io : CbIo) (p' : ProxyS) (m' : MuxL)
+    (e' : ESock) (en so : Nat) (hconn : io.conn = .errno en so)
+    (hc : p.sw.connecting = true) (hw : p.sw.shutW = false)
+    (h1 : ¬ (effErrno en so = Generated.EINPROGRESS ∨ effErrno en so = Generated.EALREADY))
+    (h2 : effErrno en so ≠ 0) (h3 : effErrno en so ≠ Generated.EISCONN)
+    (h4 : effErrno en so ∈ Generated.NET_ERRS ++ Generated.CONNECT_EXTRA_ERRS)
+    (h : p.callback m e io = .ok p' m' e') :
+    p'.sw.shutR = true ∧ p'.sw.shutW = true ∧ e'.sawShut = true := by
+  -- the connect stage
+  have htc : p.sw.tryConnect e io.conn io.shutErr =
+      .ok (SockW.seterr { p.sw with connecting := false } e io.shutErr).1
+          (SockW.seterr { p.sw with connecting := false } e io.shutErr).2 := by
+    unfold SockW.tryConnect
+    simp only [hc, hw, Bool.and_false, Bool.false_eq_true, ↓reduceIte, Bool.not_true, hconn]
+    unfold effErrno at h1 h2 h3 h4
+    rw [if_neg h1, if_neg h2, if_neg h3, if_pos h4]
+  obtain ⟨a1, a2, _, a4, a5⟩ := seterr_shut { p.sw with connecting := false } e io.shutErr
+  have a4' : (SockW.seterr { p.sw with connecting := false } e io.shutErr).2.sawShut = true := by
+    rcases a4 with a | a
+    · exact a
+    · simp only at a; rw [hw] at a; cases a
+  rw [callback_after_connect p m e io _ _ htc (by rw [a5])] at h
+  obtain ⟨k1, k2, k3, _, _⟩ := callback_mono _ m _ io p' m' e' h
+  exact ⟨k3 a1, k1 a2, k2 a4'⟩
+
+/-- A receive error (reset, …) on an established flow likewise closes it. -/
+theorem C08_recv_error_closes (p : ProxyS) (m : MuxL) (e : ESock) (io : CbIo) (p' : ProxyS) (m' : MuxL)
+    (e' : ESock) (hc : p.sw.connecting = false) (hb : p.sw.buf = []) (hr : p.sw.shutR = false)
+    (hrecv : io.recv = .err) (hse : SE p.sw e) (h : p.callback m e io = .ok p' m' e') :
+    p'.sw.shutR = true ∧ p'.sw.shutW = true ∧ e'.sawShut = true ∧ p'.sw.exc = true := by
+  have hse' := hse.callback m io p' m' e' h
+  suffices hx : p'.sw.exc = true from ⟨(hse'.1 hx).1, (hse'.1 hx).2, hse'.2 (hse'.1 hx).2, hx⟩
+  -- `exc` is set by the fill stage and never cleared
+  obtain ⟨psw, pmw, pok, sf⟩ := p
+  simp only at hc hb hr
+  unfold ProxyS.callback at h
+  simp only at h
+  rw [tryConnect_idle psw e io.conn io.shutErr hc] at h
+  simp only at h
+  have hfill : (psw.fill e io.recv io.shutErr).1.exc = true := by
+    unfold SockW.fill
+    simp only [hb, List.isEmpty_nil, Bool.not_true, Bool.false_eq_true, ↓reduceIte, hc, hr, hrecv, ESock.recv]
+    unfold SockW.seterr SockW.nowrite SockW.noread
+    split
+    · rfl
+    · split <;> rfl
+  generalize psw.fill e io.recv io.shutErr = f at h hfill
+  obtain ⟨s1, e1⟩ := f
+  simp only at h hfill
+  have nowrite_exc : ∀ (s : SockW) (e : ESock) (se : Bool), s.exc = true → (s.nowrite e se).1.exc = true := by
+    intro s e se hx
+    unfold SockW.nowrite
+    split
+    · exact hx
+    · split
+      · rfl
+      · exact hx
+  have copyMS_exc : ∀ (w : MuxW) (s : SockW) (e : ESock) (r : SendRes) (se : Bool), s.exc = true →
+      (muxCopyToSock w s e r se).2.1.exc = true := by
+    intro w s e r se hx
+    have huw : ∀ b, (s.uwrite e b r se).2.1.exc = true := by
+      intro b
+      unfold SockW.uwrite
+      split
+      · exact hx
+      · simp only
+        split
+        · exact hx
+        · exact hx
+        · exact nowrite_exc s e se hx
+        · unfold SockW.seterr SockW.noread
+          exact nowrite_exc { s with exc := true } e se rfl
+    unfold muxCopyToSock
+    cases hwb : w.buf with
+    | nil =>
+      simp only
+      split
+      · exact nowrite_exc s e se hx
+      · exact hx
+    | cons b rest =>
+      simp only
+      by_cases hbe : b.isEmpty = true
+      · simp only [hbe, ↓reduceIte]
+        split
+        · exact nowrite_exc s e se hx
+        · exact hx
+      · simp only [hbe, Bool.false_eq_true, ↓reduceIte]
+        have := huw b
+        generalize s.uwrite e b r se = u at this
+        obtain ⟨on, s1, e1⟩ := u
+        cases on with
+        | none =>
+          simp only
+          split
+          · exact nowrite_exc s1 e1 se this
+          · exact this
+        | some n =>
+          simp only
+          split
+          · exact nowrite_exc s1 e1 se this
+          · exact this
+  have cleanup_exc : ∀ (q : ProxyS) (m : MuxL) (e : ESock) (se : Bool), q.sw.exc = true →
+      (q.cleanup m e se).1.sw.exc = true := by
+    intro q m e se hx
+    have hds : ∀ q : ProxyS, q.sw.exc = true → q.dropSock.sw.exc = true := by
+      intro q hx; unfold ProxyS.dropSock; split
+      · exact hx
+      · exact hx
+    have hfin : ∀ (q : ProxyS) (m : MuxL), q.sw.exc = true → (q.finish m e se).1.sw.exc = true := by
+      intro q m hx; unfold ProxyS.finish; split
+      · split <;> exact nowrite_exc q.sw e se hx
+      · exact hx
+    unfold ProxyS.cleanup
+    by_cases hf : q.sockFirst = true
+    · simp only [hf, ↓reduceIte]
+      apply hfin; rw [dropMux_sw]; exact hds q hx
+    · simp only [hf, Bool.false_eq_true, ↓reduceIte]
+      apply hfin; apply hds; rw [dropMux_sw]; exact hx
+  cases sf
+  case true =>
+    simp only [↓reduceIte] at h
+    have g2 := (sockCopyToMux_sw s1 pmw m).2.2.1
+    generalize sockCopyToMux s1 pmw m = g at h g2
+    obtain ⟨s2, w2, m2⟩ := g
+    simp only at h g2
+    have g3 := copyMS_exc w2 s2 e1 io.send io.shutErr (by rw [g2]; exact hfill)
+    generalize muxCopyToSock w2 s2 e1 io.send io.shutErr = k at h g3
+    obtain ⟨w3, s3, e3⟩ := k
+    simp only at h g3
+    injection h with hp _ _
+    rw [← hp]
+    exact cleanup_exc { sw := s3, mw := w3, ok := pok, sockFirst := true } m2 e3 io.shutErr g3
+  case false =>
+    simp only [Bool.false_eq_true, ↓reduceIte] at h
+    have g2 := copyMS_exc pmw s1 e1 io.send io.shutErr hfill
+    generalize muxCopyToSock pmw s1 e1 io.send io.shutErr = k at h g2
+    obtain ⟨w2, s2, e2⟩ := k
+    simp only at h g2
+    have g3 := (sockCopyToMux_sw s2 w2 m).2.2.1
+    generalize sockCopyToMux s2 w2 m = g at h g3
+    obtain ⟨s3, w3, m3⟩ := g
+    simp only at h g3
+    injection h with hp _ _
+    rw [← hp]
+    exact cleanup_exc { sw := s3, mw := w3, ok := pok, sockFirst := false } m3 e2 io.shutErr (by rw [g3]; exact g2)
+
+/-- **An error never leaves a socket hanging**, in every reachable state of EVERY schedule (no
+hypothesis on the steps at all): a handler that has recorded an error (`exc`) has its socket
+wrapper shut both ways and the socket shut down; a handler about to be dropped (`ok = False`)
+is completely finished and unregistered, so its identifier is free. -/
+theorem C08_error_means_closed (w0 : World) (h0 : w0.flows = []) (steps : List Step) :
+    ∀ f ∈ (w0.run steps).flows,
+      (∀ p, f.c = some p →
+        (p.sw.exc = true → p.sw.shutR = true ∧ p.sw.shutW = true ∧ f.app.sawShut = true) ∧
+        (p.ok = false → p.mw.registered = false ∧ f.app.sawShut = true)) ∧
+      (∀ p, f.s = some p →
+        (p.sw.exc = true → p.sw.shutR = true ∧ p.sw.shutW = true ∧ f.dst.sawShut = true) ∧
+        (p.ok = false → p.mw.registered = false ∧ f.dst.sawShut = true)) := by
+  intro f hf
+  obtain ⟨hc, hs⟩ := reach_flowSock w0 h0 steps f hf
+  constructor
+  · intro p hp
+    obtain ⟨⟨a, b⟩, d⟩ := hc p hp
+    exact ⟨fun hx => ⟨(a hx).1, (a hx).2, b (a hx).2⟩, fun hok => ⟨(d hok).unregistered, b (d hok).2.1⟩⟩
+  · intro p hp
+    obtain ⟨⟨a, b⟩, d⟩ := hs p hp
+    exact ⟨fun hx => ⟨(a hx).1, (a hx).2, b (a hx).2⟩, fun hok => ⟨(d hok).unregistered, b (d hok).2.1⟩⟩
+
+/-! ## 3. other flows are not touched -/
+
+/-- **Frame lemma.**  A callback (with any fault) or `pre_select` of flow `i` changes no other
+flow's record, and the frames it queues all carry flow `i`'s own channel. -/
+theorem C08_step_frame (w : World) (e : End) (i : Nat) (io : CbIo) :
+    (∀ j, j ≠ i → (w.stepRaw (.cb e i io)).flows[j]? = w.flows[j]?) ∧
+    (∀ f, w.flows[i]? = some f → Grows f.chan w.cm (w.stepRaw (.cb e i io)).cm ∨ handlerAt .client f = none ∨
+        ∀ p, handlerAt .client f = some p → p.mw.chan ≠ f.chan) ∧
+    (∀ f, w.flows[i]? = some f → Grows f.chan w.sm (w.stepRaw (.cb e i io)).sm ∨ handlerAt .server f = none ∨
+        ∀ p, handlerAt .server f = some p → p.mw.chan ≠ f.chan) := by
+  refine ⟨?_, ?_, ?_⟩
+  · intro j hj
+    cases e
+    · simp only [World.stepRaw, World.cbC]
+      split
+      · split
+        · split
+          · simp only; rw [modifyAt_getElem?, if_neg hj]
+          · rfl
+        · rfl
+      · rfl
+    · simp only [World.stepRaw, World.cbS]
+      split
+      · split
+        · split
+          · simp only; rw [modifyAt_getElem?, if_neg hj]
+          · rfl
+        · rfl
+      · rfl
+  · intro f hf
+    cases e
+    · simp only [World.stepRaw, World.cbC, hf]
+      cases hc : f.c with
+      | none => right; left; simp [handlerAt, hc]
+      | some p =>
+        simp only
+        by_cases hch : p.mw.chan = f.chan
+        · left
+          split
+          next p' m' e' hcb =>
+            have := callback_grows p w.cm f.app io p' m' e' hcb
+            rw [hch] at this; exact this
+          · exact Grows.refl _ _
+        · right; right
+          intro q hq
+          simp only [handlerAt, hc, Option.some.injEq] at hq
+          subst hq; exact hch
+    · left
+      simp only [World.stepRaw, World.cbS]
+      split
+      · split
+        · split <;> exact Grows.refl _ _
+        · exact Grows.refl _ _
+      · exact Grows.refl _ _
+  · intro f hf
+    cases e
+    · left
+      simp only [World.stepRaw, World.cbC]
+      split
+      · split
+        · split <;> exact Grows.refl _ _
+        · exact Grows.refl _ _
+      · exact Grows.refl _ _
+    · simp only [World.stepRaw, World.cbS, hf]
+      cases hc : f.s with
+      | none => right; left; simp [handlerAt, hc]
+      | some p =>
+        simp only
+        by_cases hch : p.mw.chan = f.chan
+        · left
+          split
+          next p' m' e' hcb =>
+            have := callback_grows p w.sm f.dst io p' m' e' hcb
+            rw [hch] at this; exact this
+          · exact Grows.refl _ _
+        · right; right
+          intro q hq
+          simp only [handlerAt, hc, Option.some.injEq] at hq
+          subst hq; exact hch
+
+/-- **The neighbours keep their guarantee.**  C01's statement, read for faults: whatever errors
+are injected into whichever flows at whichever moments — they are ordinary steps of the
+schedule — every flow's delivered bytes remain a prefix of what its own peer wrote. -/
+theorem C08_neighbours_safe (w0 : World) (h0 : Fresh w0) (steps : List Step)
+    (hg : ∀ st ∈ steps, GoodStep st) (hn : (chans (w0.run steps)).Nodup) :
+    ∀ f ∈ (w0.run steps).flows,
+      f.dst.delivered <+: written f.app ∧ f.app.delivered <+: written f.dst :=
+  C01_prefix w0 h0 steps hg hn
+
+
+/-! ## 4. every way a process can end -/
+
+theorem gotPacket_died_iff (w : MuxW) (cmd : Nat) (data : Bytes) :
+    w.gotPacket cmd data = .died ↔ (cmd ≠ EOF ∧ cmd ≠ STOP ∧ cmd ≠ DATA) := by
+  unfold MuxW.gotPacket
+  by_cases h1 : cmd = Generated.CMD_TCP_EOF
+  · rw [if_pos h1]; exact ⟨fun h => (by cases h), fun h => absurd h1 h.1⟩
+  · rw [if_neg h1]
+    by_cases h2 : cmd = Generated.CMD_TCP_STOP_SENDING
+    · rw [if_pos h2]; exact ⟨fun h => (by cases h), fun h => absurd h2 h.2.1⟩
+    · rw [if_neg h2]
+      by_cases h3 : cmd = Generated.CMD_TCP_DATA
+      · rw [if_pos h3]; exact ⟨fun h => (by cases h), fun h => absurd h3 h.2.2⟩
+      · rw [if_neg h3]; exact ⟨fun _ => ⟨h1, h2, h3⟩, fun _ => rfl⟩
+
+/-- `dispatch` raises only when a frame that is not DATA / EOF / STOP_SENDING is addressed to a
+channel on which a TCP wrapper is still registered. -/
+theorem dispatch_died (e : End) (flows : List Flow) (fr : Frame) (h : (dispatch e flows fr).2 = true) :
+    ∃ f ∈ flows, ∃ p, handlerAt e f = some p ∧ f.chan = fr.chan ∧ p.mw.registered = true ∧
+      fr.cmd ≠ EOF ∧ fr.cmd ≠ STOP ∧ fr.cmd ≠ DATA := by
+  induction flows with
+  | nil => simp [dispatch] at h
+  | cons f rest ih =>
+    unfold dispatch at h
+    cases hh : handlerAt e f with
+    | none =>
+      rw [hh] at h
+      simp only at h
+      obtain ⟨g, hg, r⟩ := ih h
+      exact ⟨g, List.mem_cons_of_mem _ hg, r⟩
+    | some p =>
+      rw [hh] at h
+      simp only at h
+      by_cases hc : (f.chan == fr.chan && p.mw.registered) = true
+      · rw [if_pos hc] at h
+        simp only [Bool.and_eq_true, beq_iff_eq] at hc
+        cases hg : p.mw.gotPacket fr.cmd fr.data with
+        | ok w' => rw [hg] at h; cases h
+        | died =>
+          have := (gotPacket_died_iff p.mw fr.cmd fr.data).mp hg
+          exact ⟨f, List.mem_cons_self, p, hh, hc.1, hc.2, this⟩
+      · rw [if_neg hc] at h
+        simp only at h
+        obtain ⟨g, hg, r⟩ := ih h
+        exact ⟨g, List.mem_cons_of_mem _ hg, r⟩
+
+/-- The complete list of ways one step can end a process. -/
+def DeathCause (w : World) : Step → Prop
+  | .cb _ _ io => ¬ HandledConn io.conn                       -- connect errno outside the handled set
+  | .deliver .server conn =>
+    ∃ fr rest, w.cm.out = fr :: rest ∧
+      ((fr.cmd = CONNECT ∧ (w.sOcc fr.chan = true ∨ ¬ HandledConn conn)) ∨   -- CONNECT for a live id / unknown errno
+       (∃ f ∈ w.flows, ∃ p, f.s = some p ∧ f.chan = fr.chan ∧ p.mw.registered = true ∧
+          fr.cmd ≠ EOF ∧ fr.cmd ≠ STOP ∧ fr.cmd ≠ DATA))                    -- non-stream frame on a TCP channel
+  | .deliver .client _ =>
+    ∃ fr rest, w.sm.out = fr :: rest ∧
+      ((fr.cmd = CONNECT ∧ w.cOcc fr.chan = true) ∨
+       (∃ f ∈ w.flows, ∃ p, f.c = some p ∧ f.chan = fr.chan ∧ p.mw.registered = true ∧
+          fr.cmd ≠ EOF ∧ fr.cmd ≠ STOP ∧ fr.cmd ≠ DATA))
+  | _ => False
+
+theorem dispatchAt_died (w : World) (e : End) (fr : Frame) (hw : w.died = none)
+    (h : (w.dispatchAt e fr).died ≠ none) : (dispatch e w.flows fr).2 = true := by
+  unfold World.dispatchAt at h
+  by_cases hc : (dispatch e w.flows fr).2 = true
+  · exact hc
+  · rw [if_neg hc] at h; exact absurd hw h
+
+/-- **Nothing else ends a process.**  If a step of an alive world ends a process, the step is one
+of the cases of `DeathCause`: in particular no receive / send error, no EPIPE, no failing
+`shutdown`, no frame for a flow that is already closed (its wrapper is unregistered, so the
+frame is dropped), no identifier exhaustion, no close order. -/
+theorem C08_death_causes (w : World) (st : Step) (h0 : w.died = none) (hd : (w.step st).died ≠ none) :
+    DeathCause w st := by
+  have hraw : (w.stepRaw st).died ≠ none := by
+    unfold World.step at hd
+    rw [h0] at hd
+    simp only [Option.isSome_none, Bool.false_eq_true, ↓reduceIte] at hd
+    by_cases hc : (w.stepRaw st).died.isSome = true
+    · intro hn; rw [hn] at hc; cases hc
+    · rw [if_neg hc] at hd; exact hd
+  unfold World.stepRaw at hraw
+  cases st with
+  | accept =>
+    simp only [World.accept] at hraw
+    split at hraw <;> exact absurd h0 hraw
+  | cb e i io =>
+    simp only [DeathCause]
+    cases e
+    · simp only [World.cbC] at hraw
+      split at hraw
+      next f hf =>
+        split at hraw
+        next p hp =>
+          cases hcb : p.callback w.cm f.app io with
+          | ok p' m' e' => rw [hcb] at hraw; exact absurd h0 hraw
+          | died => exact ((C08_callback_dies_iff p w.cm f.app io).mp hcb).2.2
+        · exact absurd h0 hraw
+      · exact absurd h0 hraw
+    · simp only [World.cbS] at hraw
+      split at hraw
+      next f hf =>
+        split at hraw
+        next p hp =>
+          cases hcb : p.callback w.sm f.dst io with
+          | ok p' m' e' => rw [hcb] at hraw; exact absurd h0 hraw
+          | died => exact ((C08_callback_dies_iff p w.sm f.dst io).mp hcb).2.2
+        · exact absurd h0 hraw
+      · exact absurd h0 hraw
+  | pre e i =>
+    cases e
+    · simp only [World.preC] at hraw
+      split at hraw
+      · split at hraw <;> exact absurd h0 hraw
+      · exact absurd h0 hraw
+    · simp only [World.preS] at hraw
+      split at hraw
+      · split at hraw <;> exact absurd h0 hraw
+      · exact absurd h0 hraw
+  | deliver e conn =>
+    cases e
+    · simp only [DeathCause]
+      simp only [World.deliverC] at hraw
+      cases ho : w.sm.out with
+      | nil => rw [ho] at hraw; exact absurd h0 hraw
+      | cons fr rest =>
+        rw [ho] at hraw
+        simp only at hraw
+        refine ⟨fr, rest, rfl, ?_⟩
+        split at hraw
+        · exact absurd h0 hraw
+        · split at hraw
+          · exact absurd h0 hraw
+          · split at hraw
+            next hcn =>
+              split at hraw
+              next hocc => left; exact ⟨by simpa using hcn, hocc⟩
+              · exact absurd h0 hraw
+            · split at hraw
+              · exact absurd h0 hraw
+              · right
+                have := dispatchAt_died { w with sm := { w.sm with out := rest } } .client fr h0 hraw
+                obtain ⟨f, hf, p, hp, r⟩ := dispatch_died .client w.flows fr this
+                exact ⟨f, hf, p, hp, r⟩
+    · simp only [DeathCause]
+      simp only [World.deliverS] at hraw
+      cases ho : w.cm.out with
+      | nil => rw [ho] at hraw; exact absurd h0 hraw
+      | cons fr rest =>
+        rw [ho] at hraw
+        simp only at hraw
+        refine ⟨fr, rest, rfl, ?_⟩
+        split at hraw
+        · exact absurd h0 hraw
+        · split at hraw
+          · exact absurd h0 hraw
+          · split at hraw
+            next hcn =>
+              left
+              refine ⟨by simpa using hcn, ?_⟩
+              unfold World.connectS at hraw
+              by_cases hocc : w.sOcc fr.chan = true
+              · exact Or.inl hocc
+              · right
+                have hocc' : World.sOcc { w with cm := { w.cm with out := rest } } fr.chan = w.sOcc fr.chan := rfl
+                rw [hocc'] at hraw
+                rw [if_neg hocc] at hraw
+                split at hraw
+                · exact absurd h0 hraw
+                · split at hraw
+                  · exact absurd h0 hraw
+                  next f hf =>
+                    cases htc : SockW.tryConnect { connecting := true } f.dst conn false with
+                    | ok s e => rw [htc] at hraw; exact absurd h0 hraw
+                    | died => exact ((tryConnect_died_iff _ _ _ _).mp htc).2.2
+            · split at hraw
+              · exact absurd h0 hraw
+              · right
+                have := dispatchAt_died { w with cm := { w.cm with out := rest } } .server fr h0 hraw
+                obtain ⟨f, hf, p, hp, r⟩ := dispatch_died .server w.flows fr this
+                exact ⟨f, hf, p, hp, r⟩
+  | removeDead e => cases e <;> exact absurd h0 hraw
+  | checkFull e => cases e <;> exact absurd h0 hraw
+  | foreign e fr => cases e <;> exact absurd h0 hraw
+  | appWrite i b => exact absurd h0 hraw
+  | appEof i => exact absurd h0 hraw
+  | dstWrite i b => exact absurd h0 hraw
+  | dstEof i => exact absurd h0 hraw
+
+/-! ## 5. non-vacuity -/
+
+/-- ECONNREFUSED (111) is in the handled set; a connect that fails with it closes the flow and the
+process lives.  An errno outside the set (here 1000) does end the process — the hypothesis of
+`C08_callback_total` is not vacuous and not redundant. -/
+example : HandledConn (.errno 111 0) ∧ ¬ HandledConn (.errno 1000 0) := by
+  constructor
+  · unfold HandledConn effErrno; decide
+  · unfold HandledConn effErrno; decide
+
+example :
+    let p : ProxyS := { sw := { connecting := true }, mw := { chan := 3 }, sockFirst := false }
+    (∃ p' m' e', p.callback {} {} { conn := .errno 111 0 } = .ok p' m' e' ∧
+        p'.sw.shutW = true ∧ p'.sw.shutR = true ∧ e'.sawShut = true ∧ p'.sw.exc = true) ∧
+    p.callback {} {} { conn := .errno 1000 0 } = .died := by
+  refine ⟨⟨_, _, _, rfl, by decide⟩, ?_⟩
+  rw [C08_callback_dies_iff]
+  refine ⟨rfl, rfl, ?_⟩
+  unfold HandledConn effErrno; decide
+
 end Sshuttle.Tunnel
